@@ -29,7 +29,7 @@ def _urls(owner, port):
     return out
 
 
-def _exchange(p_tls, c_cont, c_force, p_shared, c_shared, p_alt, c_alt, hs_fail, end_by_provider):
+def _exchange(p_tls, c_cont, c_force, p_shared, c_shared, p_alt, c_alt, hs_fail, end_by_provider, typed=False):
     orc = Oracle()
     stage = 'setup'
     try:
@@ -44,8 +44,11 @@ def _exchange(p_tls, c_cont, c_force, p_shared, c_shared, p_alt, c_alt, hs_fail,
         xaddrs = dev.get_xaddrs()
         # ---------------- consumer
         stage = 'consumer-init'
+        location = xaddrs[0]
+        if typed:       # the device location was typed in by hand with the other scheme (host, port and path are right)
+            location = ('http://' if location.startswith('https://') else 'https://') + location.split('://', 1)[1]
         try:
-            cons = lk.mk_consumer(xaddrs[0], cc, c_force, c_alt)
+            cons = lk.mk_consumer(location, cc, c_force, c_alt)
         except ValueError:
             if c_force and cc is None:
                 return 'ok'      # enforced TLS without a container is rejected by the constructor: nothing can leak
@@ -141,17 +144,21 @@ def _exchange(p_tls, c_cont, c_force, p_shared, c_shared, p_alt, c_alt, hs_fail,
 
 
 def tls_exchange(p_tls: bool, c_cont: bool, c_force: bool, p_shared: bool, c_shared: bool, p_alt: bool, c_alt: bool,
-                 hs_fail: bool, end_by_provider: bool) -> str:
+                 hs_fail: bool, end_by_provider: bool, typed: bool = False) -> str:
     """
     One complete provider/consumer exchange for one configuration:
     p_tls: provider has an SSL context container; c_cont: consumer has one; c_force: force_ssl_connect;
     p_shared / c_shared: the participant uses a shared HTTP server (created by the application with the participant's server
     context) instead of its own; p_alt / c_alt: alternative_hostname given; hs_fail: the first TLS handshake fails (ssl.SSLError)
-    although the peer speaks TLS; end_by_provider: shutdown by SubscriptionEnd (else by Unsubscribe).
+    although the peer speaks TLS; end_by_provider: shutdown by SubscriptionEnd (else by Unsubscribe); typed: the device location
+    handed to the consumer spells the OTHER scheme than the provider's xaddr (only with TLS enforced: then the text of the address
+    must not matter).
     post: __return__ == 'ok'
     """
     cfg = (bool(p_tls), bool(c_cont), bool(c_force), bool(p_shared), bool(c_shared), bool(p_alt), bool(c_alt), bool(hs_fail),
-           bool(end_by_provider))
+           bool(end_by_provider), bool(typed))
+    if cfg[9] and not (cfg[1] and cfg[2]):
+        return 'ok'         # a mistyped scheme without enforced TLS: outside the claim
     with untraced():
         return _exchange(*cfg)
 
